@@ -118,12 +118,18 @@ def main(seed, tier):
     from props import c01, common
     t0 = time.time()
     specs = [s for s in c01.specs("construct") if s[1] == "IbanTask"]
+    # the cheap bounded sweep runs FIRST: when it already holds a natively replayed violation, the symbolic tasks get a
+    # short budget (round 6, C03-r6m1: a tree on which every country task runs into the default budget of 420 s took
+    # more than 40 minutes to get to the sweep that refutes it in seconds); on a tree without such a witness nothing changes
+    n, wit = bounded_native(seed, 6 if tier == "thorough" else 1)
+    if wit is not None:
+        from pyvc import task as _T
+        _T.TASK_BUDGET_S = min(_T.TASK_BUDGET_S, 40)
     results = common.run_tasks(specs, seed, tier)
     ok, lean_obls, detail, secs = run_lean(seed)
     lean_res = dict(task="lean lemmas C03", obligations=lean_obls, functions={}, files={}, paths=0,
                     error=None if ok is not None else f"checker fault: {detail}", spec=None)
     results.append(lean_res)
-    n, wit = bounded_native(seed, 6 if tier == "thorough" else 1)
     if wit is not None:
         results.append(dict(task="bounded native mutation sweep", functions={}, files={}, paths=0, error=None,
                             spec=["props.c03", "MutationReplay", []],
